@@ -81,8 +81,17 @@ def load(path):
                 m = re.match(r'^ -> (.*) \{$', hdr[j+1:])
                 fn.ret = m.group(1) if m else '()'
             else:
-                m = re.match(r'^(?:const|static(?: mut)?) (.*?): (.*) = \{$', l)
-                name = m.group(1); fn = Fn(name, l); fn.is_const = True; fn.ret = m.group(2)
+                body = re.sub(r'^(?:const|static(?: mut)?) ', '', l)
+                body = body[:-len(' = {')] if body.endswith(' = {') else body
+                d = 0; k = 0
+                while k < len(body):
+                    c = body[k]
+                    if c in '<{[(': d += 1
+                    elif c in '}])': d -= 1
+                    elif c == '>' and not (k > 0 and body[k-1] in '-='): d -= 1
+                    elif c == ':' and d == 0 and body[k:k+2] == ': ' and not body[k-1] == ':' : break
+                    k += 1
+                name = body[:k]; fn = Fn(name, l); fn.is_const = True; fn.ret = body[k+2:]
             fn.locals['_0'] = fn.ret
             i += 1
             while i < n and lines[i] != '}':
